@@ -281,6 +281,10 @@ class C12(Check):
         if exp.get("workers"):
             base_argv += ["--max-workers", str(exp["workers"])]
         base = {"hashseed": 0, "sched": exp["sched"], "enum_seed": None}
+        for d in exp["decoys"]:
+            ctx.note_fault("delivery:" + d)
+        ctx.note_fault(f"delivery:split({exp['n_files']})")
+        ctx.note_fault("delivery:reorder")
         clean, split = ctx.run_many([dict(base, name="clean", world=dict(world, results=clean_results), argv=base_argv + clean_opts),
                                      dict(base, name="split", world=dict(world, results=results), argv=base_argv + opts)])
         return {"clean": clean, "split": split, "opts": opts}
